@@ -39,6 +39,8 @@ THEOREMS = [
     "SleapVerif.C16.perfect_evaluation",
     "SleapVerif.C16.pairs_beforeFix_partial",
     "SleapVerif.C16.pairs_beforeFix_counterexample",
+    "SleapVerif.C16.evaluator_pairs_sound",
+    "SleapVerif.C16.npig_eq_enumerated",
     "SleapVerif.C16.perfect_matching",
     "SleapVerif.C16.perfect_matching_with_empty",
     "SleapVerif.C16.perfect_scores",
@@ -169,9 +171,48 @@ def main(chk: Check, build=True):
         c.setdefault("videos", [("asset",)])
         c.setdefault("pr_videos", list(c["videos"]))
         c.setdefault("share_videos", True)
-        c["frames"] = [dict(f, video=f.get("video", 0), frame_idx=f.get("frame_idx", i))
-                       for i, f in enumerate(c["frames"])]
+        c.setdefault("user_labels_only", True)
+        c.setdefault("invisible_style", 0)
+        fr = []
+        for i, f in enumerate(c["frames"]):
+            f = dict(f, video=f.get("video", 0), frame_idx=f.get("frame_idx", i))
+            if "gt_pred" not in f:   # legacy flag: one predicted instance appended to the gt frame
+                f["gt_pred"] = ([(len(f["gt"]), [[x + 1.0, y + 1.0] for x, y in f["gt"][0]])]
+                                if f.get("extra_pred_in_gt") and f["gt"] else [])
+            fr.append(f)
+        c["frames"] = fr
         return c
+
+    def all_gt(f):
+        """all instances of a gt frame in frame order: [(is_user, pts)]; `gt_pred` = predicted instances stored in
+        the reference labels, inserted at the recorded positions"""
+        out = [(True, g) for g in f["gt"]]
+        for pos, pts in f.get("gt_pred", []):
+            out.insert(min(pos, len(out)), (False, pts))
+        return out
+
+    def enum_points(case, f):
+        """the gt instances the Evaluator enumerates: user instances (default) or all (user_labels_only=False)"""
+        f = norm({**case, "frames": [f]})["frames"][0]
+        return [p_ for u, p_ in all_gt(f) if u or not case.get("user_labels_only", True)]
+
+    def mk_instance(pts, style, side, sk, n_nodes, score=None):
+        """build through the sleap-io API; a missing node (NaN, NaN) is stored either as NaN or - `style` 1: every
+        one, 2: the even-numbered ones - as FINITE coordinates with `visible=False` (what an .slp holds for a
+        node the annotator placed and then hid).  The model works on the `Instance.numpy()` abstraction (both
+        representations are (NaN, NaN) there); code that reads `points["xy"]` sees the finite garbage."""
+        arr = np.array(pts, dtype=float).reshape(n_nodes, 2)
+        hidden = [k for k in range(n_nodes) if np.isnan(arr[k]).all() and (style == 1 or (style == 2 and k % 2 == 0))]
+        raw = arr.copy()
+        for k in hidden:
+            raw[k] = [40.0 + 7 * k, 55.0 + 3 * k] if side == "gt" else [300.0 - 5 * k, 20.0 + 9 * k]
+        inst = (sio.Instance.from_numpy(raw, sk) if score is None else
+                sio.PredictedInstance.from_numpy(raw, sk, point_scores=np.ones(n_nodes), score=float(score)))
+        for k in hidden:
+            inst.points["visible"][k] = False
+        if not np.array_equal(inst.numpy(), arr, equal_nan=True) and not np.isnan(arr[:, 0]).any():
+            raise RuntimeError("sleap_io numpy() abstraction differs from the case points")
+        return inst
 
     # ------------------------------------------------------------------ building Labels
     def build(case):
@@ -187,22 +228,18 @@ def main(chk: Check, build=True):
                 for i, k in enumerate(pkeys)]   # a repeated key is a second Video object with the same key
         glf, plf, gi_all, pi_all, pr_pos = [], [], [], [], []
         for f in case["frames"]:
-            gi = [sio.Instance.from_numpy(np.array(g, float), sk) for g in f["gt"]]
-            insts = list(gi)
-            if f.get("extra_pred_in_gt"):
-                insts.append(sio.PredictedInstance.from_numpy(np.array(f["gt"][0], float) + 1.0, sk,
-                                                              point_scores=np.ones(case["n_nodes"]), score=0.5))
+            st, nn_ = case["invisible_style"], case["n_nodes"]
+            insts = [mk_instance(p_, st, "gt", sk, nn_, score=None if u else 0.5) for u, p_ in all_gt(f)]
             glf.append(sio.LabeledFrame(video=gvid[f["video"]], frame_idx=f["frame_idx"], instances=insts))
-            gi_all.append(gi)
+            gi_all.append(insts)   # ALL instances of the frame, in order (user and predicted)
             key = gkeys[f["video"]]
             if f["pr"] is not None and key in pkeys:
-                pi = [sio.PredictedInstance.from_numpy(np.array(p, float), sk, point_scores=np.ones(case["n_nodes"]),
-                                                       score=float(s)) for s, p in f["pr"]]
+                pi = [mk_instance(p, st, "pr", sk, nn_, score=s) for s, p in f["pr"]]
                 pr_pos.append((len(plf), pkeys.index(key)))
                 pinsts = list(pi)
                 if f.get("user_in_pr") is not None:   # a user `Instance` inside the prediction frame (F-C16d)
                     pos, pts_u = f["user_in_pr"]
-                    pinsts.insert(min(pos, len(pinsts)), sio.Instance.from_numpy(np.array(pts_u, float), sk))
+                    pinsts.insert(min(pos, len(pinsts)), mk_instance(pts_u, st, "pr", sk, nn_))
                 plf.append(sio.LabeledFrame(video=pvid[pkeys.index(key)], frame_idx=f["frame_idx"], instances=pinsts))
                 pi_all.append(pi)
             else:
@@ -210,21 +247,28 @@ def main(chk: Check, build=True):
                 pi_all.append(None)
         gl = sio.Labels(videos=gvid, skeletons=[sk], labeled_frames=glf)
         pl = sio.Labels(videos=pvid, skeletons=[sk], labeled_frames=plf)
-        return gl, pl, gi_all, pi_all, dict(glf=glf, plf=plf, pr_pos=pr_pos, case=case)
+        return gl, pl, gi_all, pi_all, dict(glf=glf, plf=plf, pr_pos=pr_pos, case=case, gi_all=gi_all)
 
     def pairs_line(case, gi_all, info):
         c = info["case"]
-        gf = [(f["video"], f["frame_idx"], len(gi)) for f, gi in zip(c["frames"], gi_all)]
+        gf = [(f["video"], f["frame_idx"], [u for u, _ in all_gt(f)]) for f in c["frames"]]
         pf = [(pp[1], f["frame_idx"]) for f, pp in zip(c["frames"], info["pr_pos"]) if pp is not None]
-        return ("pairs " + lst(c["videos"], key_tokens) + " " + lst(c["pr_videos"], key_tokens) + " "
-                + lst(gf, lambda x: f"{x[0]} {x[1]} {x[2]}") + " " + lst(pf, lambda x: f"{x[0]} {x[1]}"))
+        return ("pairs " + ("1 " if c["user_labels_only"] else "0 ") + lst(c["videos"], key_tokens) + " "
+                + lst(c["pr_videos"], key_tokens) + " "
+                + lst(gf, lambda x: f"{x[0]} {x[1]} " + lst(x[2], lambda b: "1" if b else "0")) + " "
+                + lst(pf, lambda x: f"{x[0]} {x[1]}"))
 
     def parse_pairs(out, info):
-        """model pairs as (gt frame position, case-frame position of the prediction frame)"""
+        """model pairs as (gt frame position, case-frame position of the prediction frame, positions of the
+        enumerated gt instances inside the frame's instance list)"""
         t = out.split()
         ppos2case = {pp[0]: q for q, pp in enumerate(info["pr_pos"]) if pp is not None}
-        k = int(t[1])
-        return t[0], [(int(t[2 + 2 * i]), ppos2case[int(t[3 + 2 * i])]) for i in range(k)]
+        k, i, res_ = int(t[1]), 2, []
+        for _ in range(k):
+            g, pp, n = int(t[i]), int(t[i + 1]), int(t[i + 2])
+            res_.append((g, ppos2case[pp], tuple(int(x) for x in t[i + 3:i + 3 + n])))
+            i += 3 + n
+        return t[0], res_
 
     def impl_pairs(e, info):
         out = []
@@ -232,7 +276,8 @@ def main(chk: Check, build=True):
             g = next((i for i, x in enumerate(info["glf"]) if x is a), -1)
             pp = next((i for i, x in enumerate(info["plf"]) if x is b), -1)
             q = next((q for q, v in enumerate(info["pr_pos"]) if v is not None and v[0] == pp), -1)
-            out.append((g, q))
+            allg = info["gi_all"][g] if g >= 0 else []
+            out.append((g, q, tuple(next((i_ for i_, x in enumerate(allg) if x is inst), -1) for inst in a.instances)))
         return out
 
     last = {}
@@ -240,7 +285,8 @@ def main(chk: Check, build=True):
     def run_impl(case):
         gl, pl, gi_all, pi_all, info = build(case)
         last["info"] = info
-        kw = dict(oks_stddev=case["stddev"], oks_scale=case["scale"], match_threshold=case["thr"])
+        kw = dict(oks_stddev=case["stddev"], oks_scale=case["scale"], match_threshold=case["thr"],
+                  user_labels_only=case.get("user_labels_only", True))
         r = call(lambda: ev.Evaluator(gl, pl, **kw))
         if r[0] != "ok":
             return r, gi_all, pi_all
@@ -272,8 +318,8 @@ def main(chk: Check, build=True):
     def driver_line(case, gi_all, pi_all, pairs):
         """`eval` line: one frame per frame pair `(gt frame position, case position of the prediction frame)`"""
         fr = []
-        for gpos, q in pairs:
-            gi, pi = gi_all[gpos], pi_all[q]
+        for gpos, q, enum in pairs:
+            gi, pi = [gi_all[gpos][e_] for e_ in enum], pi_all[q]
             gts = [g.numpy() for g in gi]  # what the code sees (sleap_io: NaN x ⇒ whole point NaN)
             prs = [p.numpy() for p in pi]
             scores = [float(p.score) for p in pi]
@@ -325,8 +371,8 @@ def main(chk: Check, build=True):
     def compare(case, res, gi_all, pi_all, out, fpairs):
         """returns list of (what, impl, model) disagreements; `fpairs` = the (agreed) frame pairs"""
         model = parse_model(out)
-        model["pairs"] = [(fpairs[f][0], g, p_, v) for f, g, p_, v in model["pairs"]]
-        model["fns"] = [(fpairs[f][0], g) for f, g in model["fns"]]
+        model["pairs"] = [(fpairs[f][0], fpairs[f][2][g], p_, v) for f, g, p_, v in model["pairs"]]
+        model["fns"] = [(fpairs[f][0], fpairs[f][2][g]) for f, g in model["fns"]]
         any_pair = len(fpairs) > 0
         if res[0] != "ok":
             if not any_pair and res[0] == "raise" and "Empty Frame Pairs" in res[2]:
@@ -510,7 +556,7 @@ def main(chk: Check, build=True):
                          signatures=[SIG_MIXED] if mixed_ and "score" in str(res2) else []); continue
             if np.any(after > base + 1e-12):
                 sigs = []
-                if mode == "frame" and any(case["frames"][fi]["gt"] for fi in removed_frames):
+                if mode == "frame" and any(enum_points(case, case["frames"][fi]) for fi in removed_frames):
                     # frames are matched independently: after removing prediction frames the recall must be
                     # exactly (true positives of the kept frames) / (gt instances of the kept frames), from
                     # the ORIGINAL pairs and false negatives - only then is the increase F-C16b
@@ -526,7 +572,7 @@ def main(chk: Check, build=True):
                     # kept prediction of the same frame now gets a better (or its first) match
                     gl2, pl2, gi2, pi2, _ = build(new)
                     e2 = ev.Evaluator(gl2, pl2, oks_stddev=case["stddev"], oks_scale=case["scale"],
-                                      match_threshold=case["thr"])
+                                      match_threshold=case["thr"], user_labels_only=case.get("user_labels_only", True))
                     after_map = {}
                     for a, b, v in e2.positive_pairs:
                         f_, j_ = locate(pi2, b.instance)
@@ -547,8 +593,8 @@ def main(chk: Check, build=True):
         _, e, m = res
         bad = []
         is_empty = lambda g: not any(x == x and y == y for x, y in g)
-        n_all = sum(len(f["gt"]) for f in case["frames"])
-        n_empty = sum(1 for f in case["frames"] for g in f["gt"] if is_empty(g))
+        n_all = sum(len(enum_points(case, f)) for f in case["frames"])
+        n_empty = sum(1 for f in case["frames"] for g in enum_points(case, f) if is_empty(g))
         npig = n_all - n_empty   # an empty gt instance (all keypoints NaN) can only be a false negative
         if len(e.positive_pairs) != npig or len(e.false_negatives) != n_empty:
             bad.append(("not every (non-empty) gt matched, or something else missed",
@@ -601,10 +647,13 @@ def main(chk: Check, build=True):
     def gen_case(perfect=False):
         n_nodes = rng.choice([2, 3, 3, 4, 5])
         frames = []
+        # user_labels_only=False (18 %): reference labels with mixed user/predicted instances, predicted-only
+        # frames and frames without instances; all of them are enumerated and counted
+        ulo = rng.random() >= 0.18
         for _ in range(rng.choice([1, 2, 2, 3, 4, 5, 6])):
             crowded = rng.random() < 0.5
             centre = (q16(rng, 60, 300), q16(rng, 60, 300))
-            n_gt = rng.choice([1, 1, 2, 2, 3, 4]) if (perfect or rng.random() < 0.93) else 0
+            n_gt = rng.choice([1, 1, 2, 2, 3, 4]) if ((perfect and ulo) or rng.random() < (0.93 if ulo else 0.7)) else 0
             gts = []
             for _ in range(n_gt):
                 g = with_nan(gen_instance(n_nodes, centre if crowded else None))
@@ -615,17 +664,24 @@ def main(chk: Check, build=True):
             empty_at = rng.randrange(len(gts) + 1) if rng.random() < 0.12 else None
             if empty_at is not None:
                 gts.insert(empty_at, [[float("nan"), float("nan")] for _ in range(n_nodes)])
+            # predicted instances stored in the reference (gt) frame, at random positions of its instance list
+            gt_pred = []
+            if rng.random() < (0.12 if ulo else 0.6):
+                for _ in range(rng.choice([1, 1, 2])):
+                    gt_pred.append((rng.randrange(len(gts) + len(gt_pred) + 1),
+                                    with_nan(gen_instance(n_nodes, centre if crowded else None))))
+            enum = [p_ for u_, p_ in all_gt({"gt": gts, "gt_pred": gt_pred}) if u_ or not ulo]
             if perfect:
-                # gt must be pairwise distinguishable on their visible nodes: regenerate clones
-                pr = [(rng.choice([0.3, 0.5, 0.5, 0.9, rng.random()]), [list(x) for x in g]) for g in gts]
+                # exact copies of every ENUMERATED gt instance (user_labels_only=False: the predicted ones too)
+                pr = [(rng.choice([0.3, 0.5, 0.5, 0.9, rng.random()]), [list(x) for x in g]) for g in enum]
                 rng.shuffle(pr)
-                frames.append({"gt": gts, "pr": pr})
+                frames.append({"gt": gts, "gt_pred": gt_pred, "pr": pr})
                 continue
             if rng.random() < 0.1:
                 pr = None
             else:
                 pr = []
-                for g in gts:
+                for g in enum:
                     u = rng.random()
                     if u < 0.15 or not any(x == x and y == y for x, y in g):
                         continue  # missed animal / nothing to predict for an empty instance
@@ -641,14 +697,15 @@ def main(chk: Check, build=True):
                 for _ in range(rng.choice([0, 0, 0, 1, 2])):
                     pr.append((rng.random(), gen_instance(n_nodes)))  # false positives
                 rng.shuffle(pr)
-            fr_ = {"gt": gts, "pr": pr, "extra_pred_in_gt": bool(gts) and rng.random() < 0.1}
+            fr_ = {"gt": gts, "gt_pred": gt_pred, "pr": pr}
             if pr is not None and gts and rng.random() < 0.04:
                 real = [g for g in gts if any(x == x and y == y for x, y in g)]
                 upts = [list(x) for x in rng.choice(real)] if real and rng.random() < 0.5 else gen_instance(n_nodes)
                 fr_["user_in_pr"] = (rng.randrange(len(pr) + 1), upts)
             frames.append(fr_)
         case = {"n_nodes": n_nodes, "frames": frames, "stddev": rng.choice([0.025, 0.05, 0.1]),
-                "scale": rng.choice([None, None, q16(rng, 50, 2000)]), "thr": rng.choice([0, 0, 0, 0.3])}
+                "scale": rng.choice([None, None, q16(rng, 50, 2000)]), "thr": rng.choice([0, 0, 0, 0.3]),
+                "user_labels_only": ulo, "invisible_style": rng.choice([0, 0, 1, 2])}
         assign_videos(case, perfect)
         return case
 
@@ -724,8 +781,8 @@ def main(chk: Check, build=True):
 
     def distinguishable(case):
         for f in case["frames"]:
-            for i, a in enumerate(f["gt"]):
-                for j, b in enumerate(f["gt"]):
+            for i, a in enumerate(enum_points(case, f)):
+                for j, b in enumerate(enum_points(case, f)):
                     if i != j and any(x == x and y == y for x, y in a) and any(x == x and y == y for x, y in b):
                         va = [(x, y) for x, y in a if x == x and y == y]
                         # b restricted to a's visible nodes must differ somewhere (and be visible there or not)
@@ -823,7 +880,7 @@ def main(chk: Check, build=True):
         for kk in ("videos", "pr_videos"):
             if kk in c:
                 c[kk] = [tuple(x) for x in c[kk]]
-        perfect_like = all(f["pr"] is not None and sorted(map(str, [p_ for _, p_ in f["pr"]])) == sorted(map(str, f["gt"]))
+        perfect_like = all(f["pr"] is not None and sorted(map(str, [p_ for _, p_ in f["pr"]])) == sorted(map(str, enum_points(c, f)))
                            for f in c["frames"])
         cases = [(("perfect" if distinguishable(c) else "perfect_nested") if perfect_like else "gen", c)]
     impls, lines1 = [], []
@@ -842,13 +899,15 @@ def main(chk: Check, build=True):
                 "hdf5" if all(tuple(k) == ("asset",) or tuple(k)[0] == 0 for k in info["case"]["videos"]) else "non_hdf5_backend"]
         if len({tuple(k)[:2] for k in info["case"]["videos"]}) < nvid:
             tags.append("videos_share_a_file")
-        if any(not any(x == x and y == y for x, y in g) for f in case["frames"] for g in f["gt"]):
+        if any(not any(x == x and y == y for x, y in g) for f in case["frames"] for g in enum_points(case, f)):
             tags.append("has_empty_gt_instance")
+        tags.append("user_labels_only" if case.get("user_labels_only", True) else "all_instances_mode")
+        tags.append(f"invisible_style{case.get('invisible_style', 0)}")
         mixed = any(f.get("user_in_pr") is not None and f["pr"] is not None for f in case["frames"])
         tags += [f"thr{case['thr']}", "scale:" + ("none" if case["scale"] is None else "number"), f"stddev{case['stddev']}"]
         if mixed:
             tags.append("user_instance_in_prediction_frame")
-        if any(f.get("extra_pred_in_gt") for f in case["frames"]):
+        if any(f.get("extra_pred_in_gt") or f.get("gt_pred") for f in case["frames"]):
             tags.append("predicted_instance_in_gt_frame")
         if any(f["pr"] and len({s_ for s_, _ in f["pr"]}) < len(f["pr"]) for f in case["frames"]):
             tags.append("detection_score_ties")
@@ -924,7 +983,9 @@ if __name__ == "__main__":
              "k/16 lattice, stddev/scale/threshold options; plus perfect-prediction cases (multi-video too) and one fixed "
              "two-video package case; distinct = distinct eval driver line with >= 1 positive pair",
         assumptions=[
-            "at most one prediction LabeledFrame per (video, frame index); user_labels_only=True (the default; =False is not generated)",
+            "at most one prediction LabeledFrame per (video, frame index)",
+            "instances are built through the sleap-io API; missing nodes are stored either as NaN or as finite coordinates with "
+            "visible=False - the model works on the Instance.numpy() abstraction, where both are (NaN, NaN)",
             "match_threshold >= 0 and oks_scale >= 0 or None (a negative threshold lets the all-NaN copy of an empty instance match; "
             "a negative scale gives OKS > 1)",
             "an empty gt instance (all keypoints NaN) counts as a miss: for exact copies AR = (#non-empty)/(#all), not 1 "
